@@ -23,10 +23,10 @@ namespace Givaro {
     {  return compare(a,b) == 0 ; }
 
     inline int operator < (const Rational& a , const Rational& b)
-    { return compare(a,b) == -1 ; }
+    { return compare(a,b) < 0 ; }
 
     inline int operator >  (const Rational& a , const Rational& b)
-    { return compare(a,b) == 1 ; }
+    { return compare(a,b) > 0 ; }
 
     inline int operator <= (const Rational& a, const Rational& b)
     { return compare(a,b) <= 0 ; }
